@@ -63,6 +63,7 @@ DRIVERS = {  # binary -> (sources in harness/, extra flags, link with the librar
     "drv_damage": (["drv_damage.cpp"], [], True),
     "drv_misc": (["drv_misc.cpp"], [], True),
     "drv_sched": (["drv_sched.cpp"], [], True),
+    "drv_static": (["drv_static.cpp"], [], True),
 }
 
 
@@ -590,7 +591,7 @@ CONFIGS = [(bt, sh_) for bt in ("Debug", "RelWithDebInfo", "Release") for sh_ in
 
 def check_c19(tier, deadline):
     rep = Report("C19", tier, "exploration")
-    plain = build("plain", ("drv_api", "drv_file", "drv_misc"))
+    plain = build("plain", ("drv_api", "drv_file", "drv_misc", "drv_static"))
     root = f"/tmp/ezc3d-c19.{os.getpid()}"
     shutil.rmtree(root, ignore_errors=True); os.makedirs(root)
 
@@ -605,7 +606,7 @@ def check_c19(tier, deadline):
         libs = glob.glob(os.path.join(bdir, "libezc3d*"))
         lib = [l for l in libs if l.endswith(".so") or l.endswith(".a")]
         exes = {}
-        for drv in ("drv_api", "drv_file", "drv_misc"):
+        for drv in ("drv_api", "drv_file", "drv_misc", "drv_static"):
             exe = os.path.join(bdir, drv)
             objs = [os.path.join(plain, f"{drv}_{drv}.o")]
             cmd = ["g++", "-o", exe] + objs + ([lib[0]] if lib[0].endswith(".a") else ["-L" + bdir, "-l" + os.path.basename(lib[0])[3:-3], "-Wl,-rpath," + bdir]) + ["-ldl", "-lpthread"]
@@ -627,7 +628,8 @@ def check_c19(tier, deadline):
                ("drv_api", "params", ["--alphabet", "params", "--oracles", "T", "--depth", "2" if tier == "quick" else "3"]),
                ("drv_file", "c04", ["--mode", "c04", "--devs", "2" if tier == "quick" else "3"] + sum([["--vendor", os.path.join(REPO, v)] for v in VENDOR if os.path.exists(os.path.join(REPO, v))], [])),
                ("drv_file", "c12", ["--mode", "c12"]),
-               ("drv_misc", "setters", ["--mode", "setters"])]
+               ("drv_misc", "setters", ["--mode", "setters"]),
+               ("drv_static", "static", [])]   # the same history run by a static object's constructor (before main) and by main
     lines_total = 0; per_corpus = []
     samples = []
     for drv, name, args in corpora:
@@ -651,6 +653,11 @@ def check_c19(tier, deadline):
         lines_total += len(ref); per_corpus.append({"corpus": name, "driver": drv, "transcript_lines": len(ref)})
         if ref:
             samples.append(f"{name}: {ref[len(ref) // 2][:160]}")
+        if name == "static":
+            for tag, body in trs.items():
+                if "same -> yes" not in body:
+                    rep.add(f"static_ctor_vs_main_differ/{tag}", "the same calls made by a static object's constructor and by main() give different results: " + " | ".join(body)[:600],
+                            {"engine": "c19", "corpus": name, "builds": [tag], "transcript": body})
         for tag, body in trs.items():
             if body == ref:
                 continue
@@ -663,7 +670,8 @@ def check_c19(tier, deadline):
     rep.coverage = {"evaluations": lines_total * len(CONFIGS), "distinct_nontrivial": lines_total,
                     "rule": "the project's own CMakeLists builds the library in the six supported configurations (Debug/-O0, RelWithDebInfo/-O2, Release/-O3 x shared/static); the same deterministic drivers "
                             "(API state-space exploration emitting every transition with its outcome class and successor state hash plus the saved-file digest of every state; file corpus through 3 load/save "
-                            "generations emitting loaded-state and file hashes; all integer/float pattern files) run against each build; the transcripts must be identical line by line",
+                            "generations emitting loaded-state and file hashes; all integer/float pattern files; one construction history executed by the constructor of a static object, i.e. before main(), and again by main()) "
+                            "run against each build; the transcripts must be identical line by line",
                     "exhaustive": True, "configurations": [f"{a}/{'shared' if b == 'TRUE' else 'static'}" for a, b in CONFIGS], "corpora": per_corpus, "samples": samples or ["<empty>"]}
     rep.assumptions = ["the harness objects are compiled once (library code lives entirely in the .cpp files, the public headers hold declarations only), each configuration's library is linked in"]
     return rep.finish()
